@@ -163,11 +163,12 @@ class _Flag:
 @register
 class SetField(Contract):
     fn = "gfapy/line/common/field_data.py::FieldData.set"
-    props = ("C20", "C07", "C08")
+    props = ("C20", "C07", "C08", "C18")
     doc = ("set(name, value), by case: a field that exists or is predefined -> _set_existing_field; an alias -> set on the real name; a virtual "
            "line -> RuntimeError; a NEW tag (level 0, or a valid custom tag name): refused with FormatError when the name shadows an attribute of "
            "the line, handed to _set_existing_field when its datatype was declared, otherwise stored together with the DEFAULT datatype of the "
-           "value (datatype and value, nothing else; None stores nothing); any other name -> FormatError. Every refusal happens before any write")
+           "value (datatype and value, nothing else; None stores nothing) - at level 3 only after the value was validated against that default datatype, "
+           "and a value which fails is refused with the validator's error; any other name -> FormatError. Every refusal happens before any write")
 
     def cases(self, ctx):
         import builtins
@@ -220,14 +221,22 @@ class SetField(Contract):
                 yield ("val", inst_dyn, [])
             else:
                 raise Unsupported("isinstance(%r)" % (pos[0],))
+        dflt = Obj(None, "default_datatype_of_value")
         def m_default(E, st, pos, kw):
-            yield ("val", Obj(None, "default_datatype_of_value"), [])
+            yield ("val", dflt, [])
+        value_ok = z3.Bool("value_valid_for_its_default_datatype")
+        def m_validate(E, st, pos, kw):
+            a = list(pos)[-3:]
+            ok = (a[0] is val or a[0] is value or (isinstance(a[0], Opt) and a[0].val is val)) and a[1] is dflt
+            yield ("raise", Exc(g.FormatError), [z3.Not(value_ok)], st)
+            yield ("val", None, [value_ok], w(st, "validated" if ok else "validated_wrong_args"))
         f = ctx.fn
         models = {f("gfapy/line/common/field_data.py::FieldData._set_existing_field"): m_existing, f("gfapy/line/common/field_data.py::FieldData.set"): m_set,
                   f("gfapy/line/common/validate.py::Validate._is_predefined_tag"): const_model(lambda *a: predefined),
                   f("gfapy/line/common/validate.py::Validate._is_valid_custom_tagname"): const_model(lambda *a: valid_name),
                   f("gfapy/line/common/dynamic_fields.py::DynamicFields._define_field_methods") if ctx.fn_opt("gfapy/line/common/dynamic_fields.py::DynamicFields._define_field_methods") else None: const_model(lambda *a: None),
                   f("gfapy/field/field.py::Field._get_default_gfa_tag_datatype"): m_default,
+                  f("gfapy/field/validator.py::Validator._validate_gfa_field"): m_validate,
                   builtins.hasattr: m_hasattr, builtins.isinstance: m_isinstance,
                   g.Line.positional_fieldnames.fget: const_model(lambda s_: []), g.Line.tagnames.fget: const_model(lambda s_: [])}
         models.pop(None, None)
@@ -241,15 +250,23 @@ class SetField(Contract):
                 if v.cls is g.RuntimeError:
                     c.append(z3.And(z3.Not(existing), z3.Not(alias), virtual))
                 elif v.cls is g.FormatError:
-                    c.append(z3.And(z3.Not(existing), z3.Not(alias), z3.Not(virtual), z3.Or(z3.And(newtag, shadows), z3.Not(z3.Or(vlevel == 0, valid_name)))))
+                    c.append(z3.And(z3.Not(existing), z3.Not(alias), z3.Not(virtual),
+                                    z3.Or(z3.And(newtag, shadows), z3.Not(z3.Or(vlevel == 0, valid_name)),
+                                          z3.And(newtag, z3.Not(shadows), z3.Not(declared), z3.Not(vnone), z3.Not(value_ok)))))      # (the validator's refusal of the value of a new tag)
                 else:
                     c.append(z3.BoolVal(False))
                 return z3.And(*c)
             want = z3.If(existing, 1, z3.If(alias, 2, z3.If(z3.And(newtag, z3.Not(shadows), declared), 1, z3.If(z3.And(newtag, z3.Not(shadows), z3.Not(vnone)), 3, 4))))
             # (the two stores of a new tag may come in either order: the contract speaks about what is stored, not about the order)
+            checked = e[:1] == ("validated",)
+            if checked:
+                e = e[1:]
             got = {("set_existing",): 1, ("set_real_name",): 2, ("datatype[field]=default", "data[field]=value"): 3, ("data[field]=value", "datatype[field]=default"): 3, (): 4}.get(e, 0)
-            return z3.And(z3.Not(virtual) if got in (3, 4) else z3.BoolVal(True), want == got,
+            if checked and got != 3:
+                return z3.BoolVal(False)
+            return z3.And(z3.Implies(z3.And(want == 3, vlevel >= 3), z3.BoolVal(checked)),          # C18: at level 3 an invalid value is reported at the assignment
+                          z3.Not(virtual) if got in (3, 4) else z3.BoolVal(True), want == got,
                           z3.Implies(want == 4, z3.And(newtag, z3.Not(shadows), z3.Not(declared), vnone)))
         sym = dict(field_has_a_value=in_data, predefined_tag=predefined, alias=alias, virtual=virtual, vlevel=vlevel, valid_custom_tag_name=valid_name,
-                   name_of_a_class_attribute=cls_attr, name_in_instance_dict=inst_attr, instance_entry_is_a_field_accessor=inst_dyn, datatype_declared=declared, value_is_None=vnone)
+                   name_of_a_class_attribute=cls_attr, name_in_instance_dict=inst_attr, instance_entry_is_a_field_accessor=inst_dyn, datatype_declared=declared, value_is_None=vnone, value_valid_for_its_default_datatype=value_ok)
         return [Case("by-case", [s, Obj(None, "fieldname"), value], post, pre=[vlevel >= 0, vlevel <= 3], heap=heap, models=models, symbols=sym, minimize=[vlevel])]
